@@ -317,6 +317,27 @@ if mode == "history":
 else:
     open(p, "w").write(v2)
     out["abs"] = out["rel"] = out["again"] = pipeline.gen_py(load_ode(p), schemes=["explicit_euler"])
+# argument objects reused across generations (request dict of missing values, scheme list, stiff-state list)
+from gotranx.load import ode_from_string
+from gotranx.schemes import Scheme
+SPLIT = ('parameters("A", a=0.5)\nparameters("B", b=2.0)\nstates("A", x=1.0)\nstates("B", y=2.0, z=0.5)\n'
+         'expressions("A")\nia = a*x + y\ndx_dt = -ia + z\nexpressions("B")\nib = b*y - x\ndy_dt = ib/b\ndz_dt = -z + ib + ia\n')
+full = ode_from_string(SPLIT)
+comp = full.get_component("A")
+sub, rest = comp.to_ode(), full - comp
+def fresh_args():
+    return dict(sub.missing_variables), ["explicit_euler", "hybrid_rush_larsen"], ["y"]
+wanted, schemes, stiff = fresh_args()
+for k in ("obj-first", "obj-second"):
+    if mode != "history":
+        wanted, schemes, stiff = fresh_args()
+    out[k] = pipeline.gen_py(rest, schemes=schemes, stiff_states=stiff, missing_values=wanted)
+if mode != "history":
+    wanted, schemes, stiff = fresh_args()
+out["obj-c"] = pipeline.gen_c(rest, schemes=schemes, stiff_states=stiff, missing_values=wanted)
+if mode != "history":
+    wanted, schemes, stiff = fresh_args()
+out["obj-jax"] = pipeline.gen_py(rest, backend="jax", schemes=schemes, stiff_states=stiff, missing_values=wanted)
 print("RESULT" + json.dumps(out))
 '''
 
@@ -340,6 +361,10 @@ def load_history(prog):
     for k in ("abs", "rel", "again"):
         prog.fact(f"load-history|{k}", res["history"][k] == res["fresh"][k], "HistoryDependent",
                   f"code generated for a file after earlier load/generate calls through the same path ({k}) differs from a fresh process")
+    for k in ("obj-first", "obj-second", "obj-c", "obj-jax"):
+        prog.fact(f"argument-history|{k}", res["history"][k] == res["fresh"][k], "HistoryDependent",
+                  f"code generated with argument objects (missing-values dict, scheme list, stiff-state list) that were already used "
+                  f"by an earlier generation ({k}) differs from the code generated with fresh, equal arguments")
     prog.nontrivial = True
     prog.samples.append({"history": "load v1 (abs + relative path), rewrite file with v2 keeping mtime, load again", "fresh": "load v2"})
     return prog.result()
